@@ -734,6 +734,23 @@ pub fn mutate_json(js: &str, m: &Value, group: &str) -> Result<Vec<String>, Stri
             let (path, old) = hexes.get(idx).ok_or_else(|| format!("no hex leaf {idx} in {js}"))?;
             let old = old.as_str().unwrap();
             let class = gets(m, "class");
+            if kind == "hex" && class == "utf8" {
+                // multi-byte characters (2, 3 and 4 bytes) at the start, around the 8- and 16-byte marks and at the
+                // end of the text: never hex, so never accepted, and never an abort
+                let mut outs = vec![];
+                let n = old.len();
+                for ch in ['\u{e9}', '\u{20ac}', '\u{1f600}'] {
+                    for p in [0usize, 7, 13, 14, 15, 16, n.saturating_sub(1)] {
+                        if p < n {
+                            let t = format!("{}{}{}", &old[..p], ch, &old[p + 1..]);
+                            let mut d = doc.clone();
+                            json_set(&mut d, path, Value::String(t));
+                            outs.push(serde_json::to_string(&d).unwrap());
+                        }
+                    }
+                }
+                return Ok(outs);
+            }
             let new = match kind {
                 "point" => {
                     let valid = hex::decode(old).map_err(|e| e.to_string())?;
